@@ -12,6 +12,7 @@ import (
 	"strconv"
 	"strings"
 	"sync"
+	"sync/atomic"
 	"syscall"
 	"time"
 )
@@ -176,6 +177,10 @@ func runIsolated(c *Check, f *Family, tier string, res *result, deadline time.Ti
 	}
 	defer os.RemoveAll(tmp)
 	exe, _ := os.Executable()
+	hangAfter := f.HangAfter
+	if hangAfter == 0 {
+		hangAfter = c.HangAfter
+	}
 	var mu sync.Mutex
 	var wg sync.WaitGroup
 	complete := true
@@ -199,8 +204,54 @@ func runIsolated(c *Check, f *Family, tier string, res *result, deadline time.Ti
 				cmd.Stderr = &tailWriter{buf: &stderr, max: 1 << 16}
 				cmd.Stdout = nil
 				timer := time.AfterFunc(remain, func() { cmd.Process.Kill() })
+				// stall detector: the worker rewrites its progress file at the start of
+				// every case; no change for hangAfter means one case has been running that long
+				var stalled int32
+				stopWatch := make(chan struct{})
+				if hangAfter > 0 {
+					go func() {
+						last, since := "", time.Now()
+						tk := time.NewTicker(time.Second)
+						defer tk.Stop()
+						for {
+							select {
+							case <-stopWatch:
+								return
+							case <-tk.C:
+								b, _ := os.ReadFile(prog)
+								if string(b) != last {
+									last, since = string(b), time.Now()
+								} else if last != "" && time.Since(since) > hangAfter {
+									atomic.StoreInt32(&stalled, 1)
+									cmd.Process.Kill()
+									return
+								}
+							}
+						}
+					}()
+				}
 				runErr := cmd.Run()
+				close(stopWatch)
 				timedOut := !timer.Stop()
+				if atomic.LoadInt32(&stalled) != 0 {
+					pb, _ := os.ReadFile(prog)
+					idx, perr := strconv.ParseInt(strings.TrimSpace(string(pb)), 10, 64)
+					if perr != nil {
+						res.addFailure(Failure{Property: c.ID, Sig: "harness-worker-stalled:" + f.Name, Family: f.Name, Index: -1, Observed: "worker stalled without a progress record"})
+						mu.Lock()
+						complete = false
+						mu.Unlock()
+						return
+					}
+					if confirmHang(c, f, tier, idx, 3*hangAfter) {
+						res.addFailure(hangFailure(c, f, idx, 3*hangAfter))
+					}
+					mu.Lock()
+					st.Done += (idx-from)/W + 1
+					mu.Unlock()
+					from = idx + 1
+					continue
+				}
 				b, rerr := os.ReadFile(out)
 				if rerr == nil {
 					var so shardOut
